@@ -145,7 +145,7 @@ mod __verif {
         kani::cover!(r.end - r.start == 2);
     }
 
-    // @obligation name=l_to_char_sat props=C07 fn=util::to_char_sat kind=complete domain="every u32" min_checks=10
+    // @obligation name=l_to_char_sat props=C01:t,C06:t fn=util::to_char_sat kind=complete domain="every u32" min_checks=10
     // to_char_sat is total: the char itself for scalar values, char::MAX otherwise.
     #[kani::proof]
     fn l_to_char_sat() {
